@@ -10,7 +10,9 @@ Record obs := { o_err : N; o_contra : bool; o_heights : N * N * N;
                 o_gkeys : list N; o_gens : list (N * option (list N)); o_at : list (N * N);
                 (* GetBFTParameters at probe heights: (height, None = error | Some (prevote, precommit, certificate threshold,
                    validators as stored)); o_vhash: the stored validatorsHash equals the independently computed LIP-0058 hash *)
-                o_params : list (N * option (N * N * N * list (N * N))); o_vhash : bool }.
+                o_params : list (N * option (N * N * N * list (N * N))); o_vhash : bool;
+                (* NextHeightBFTParameters at probe heights (tip, below the window, maxHeightCertified, +1, genesis height) *)
+                o_nexts : list (N * option N) }.
 
 Definition hist_case : Type := nat * N * pchange * list block * bool * list obs.
 
@@ -49,9 +51,11 @@ Definition obs_of (s : store) (b : hdr) (contra : bool) (imp : res bool) : obs :
      o_params := map (fun h => (h, match get_params (s_params s) h with
                                    | Ok p => Some (p_pv p, p_pc p, p_cert p, p_vals p) | Error _ => None end))
                      [h_height b + 1; h_height b; oldest_height (v_infos v)];
-     o_vhash := true |}.
+     o_vhash := true;
+     o_nexts := map (fun h => (h, next_params_height (s_params s) h))
+                    [h_height b; oldest_height (v_infos v) - 1; v_mhc v; v_mhc v + 1; 0] |}.
 Definition err_obs (e : N) (contra : bool) : obs :=
-  {| o_err := e; o_contra := contra; o_heights := (0, 0, 0); o_infos := []; o_act := []; o_pkeys := []; o_imp := 0; o_next := None; o_gkeys := []; o_gens := []; o_at := []; o_params := []; o_vhash := true |}.
+  {| o_err := e; o_contra := contra; o_heights := (0, 0, 0); o_infos := []; o_act := []; o_pkeys := []; o_imp := 0; o_next := None; o_gkeys := []; o_gens := []; o_at := []; o_params := []; o_vhash := true; o_nexts := [] |}.
 
 Definition obs_eqb (a b : obs) : bool :=
   (o_err a =? o_err b) && Bool.eqb (o_contra a) (o_contra b) &&
@@ -59,7 +63,8 @@ Definition obs_eqb (a b : obs) : bool :=
      (let '(x1, x2, x3) := o_heights a in let '(y1, y2, y3) := o_heights b in (x1 =? y1) && (x2 =? y2) && (x3 =? y3)) &&
      list_eqb info_eqb (o_infos a) (o_infos b) && list_eqb act_eqb (o_act a) (o_act b) &&
      list_eqb N.eqb (o_pkeys a) (o_pkeys b) && (o_imp a =? o_imp b) && optN_eqb (o_next a) (o_next b) &&
-     params_eqb (o_params a) (o_params b) && Bool.eqb (o_vhash a) (o_vhash b)
+     params_eqb (o_params a) (o_params b) && Bool.eqb (o_vhash a) (o_vhash b) &&
+     list_eqb (fun x y => (fst x =? fst y) && optN_eqb (snd x) (snd y)) (o_nexts a) (o_nexts b)
    else true).
 
 (* model observations for a history; stops at the first error like the harness *)
@@ -90,7 +95,9 @@ Definition obs_prop_eqb (a b : obs) : bool :=
      (* which heights carry their own parameters (validator-set / threshold changes in force) is part of the property *)
      list_eqb N.eqb (o_pkeys a) (o_pkeys b) && optN_eqb (o_next a) (o_next b) &&
      (* ... and so are the thresholds and the validator weights GetBFTParameters reports for a height *)
-     params_eqb (o_params a) (o_params b) && Bool.eqb (o_vhash a) (o_vhash b)
+     params_eqb (o_params a) (o_params b) && Bool.eqb (o_vhash a) (o_vhash b) &&
+     (* ... and the height of the next parameter change above a given height (bounds the aggregate commit) *)
+     list_eqb (fun x y => (fst x =? fst y) && optN_eqb (snd x) (snd y)) (o_nexts a) (o_nexts b)
    else true).
 
 Definition check_hist (c : hist_case) : N :=
@@ -123,7 +130,7 @@ Definition probe (gs : @kstore generators) (h : N) : N * option (list N) :=
 
 Definition with_gens (o : obs) (gs : @kstore generators) (tip oldest : N) : obs :=
   {| o_err := o_err o; o_contra := o_contra o; o_heights := o_heights o; o_infos := o_infos o; o_act := o_act o;
-     o_pkeys := o_pkeys o; o_imp := o_imp o; o_next := o_next o; o_params := o_params o; o_vhash := o_vhash o;
+     o_pkeys := o_pkeys o; o_imp := o_imp o; o_next := o_next o; o_params := o_params o; o_vhash := o_vhash o; o_nexts := o_nexts o;
      o_gkeys := map fst gs;
      o_gens := [probe gs (tip + 1); probe gs tip; probe gs oldest];
      o_at := match klookup gs (tip + 1) None with
